@@ -24,7 +24,11 @@ FUNS = {"inc": (["x"], E.op("add", E.sym("x"), E.num(1))),
         "lin2": (["x", "y"], E.op("add", E.sym("x"), E.op("mul", E.num(2), E.sym("y")))),
         "ceil3": (["x"], E.op("ceil", E.op("mul", E.num(3), E.sym("x")))),
         "parity": (["x"], E.op("mod", E.sym("x"), E.num(2))),
-        "floor3y": (["x", "y"], E.op("add", E.op("floor", E.op("mul", E.num(3), E.sym("x"))), E.sym("y")))}
+        "floor3y": (["x", "y"], E.op("add", E.op("floor", E.op("mul", E.num(3), E.sym("x"))), E.sym("y"))),
+        # closures of one factory (one code object, different captured values): see impl_fns._make_scale
+        "scale2": (["x"], E.op("add", E.op("mul", E.num(2), E.sym("x")), E.num(1))),
+        "scale3": (["x"], E.op("add", E.op("mul", E.num(3), E.sym("x")), E.num(1))),
+        "scale5": (["x"], E.op("add", E.op("mul", E.num(5), E.sym("x")), E.num(1)))}
 
 
 def value_expr(v):
@@ -142,7 +146,7 @@ def build_cases(rng, n, max_depth, p_rep=0.3, repeated_only=False):
         if not params:
             continue
         mode = rng.choice(["total", "total", "partial", "expr", "expr"]) if not repeated_only else "total"
-        fns = [[f, rng.choice(["inc", "sq", "ceil3", "parity"]) if f == "f" else rng.choice(["lin2", "floor3y"])] for f in rng.sample(H.FUNCS, rng.randint(1, 2))] if rng.random() < 0.4 else None
+        fns = [[f, rng.choice(["inc", "sq", "ceil3", "parity", "scale2", "scale3", "scale5"]) if f == "f" else rng.choice(["lin2", "floor3y"])] for f in rng.sample(H.FUNCS, rng.randint(1, 2))] if rng.random() < 0.4 else None
         # (very large integers only where nothing is repeated: a repetition count of 2**60 is not a test of evaluation)
         big_ok = '"repetition": {' not in json.dumps(r)
         zf = [x["name"][2:] for x in r["resources"] if x["name"] in ("zff", "zfg")]
